@@ -416,3 +416,18 @@ Corollary restore_any so fo snaps : so <> Some [] -> fo <> Some [] ->
   = restore_sel (any_of matches so) (any_of matches fo) snaps.
 Proof. intros Hs Hf. apply restore_sel_ext; intros x; apply combine_any; assumption. Qed.
 End Combine.
+
+(* without the law the statement is false: CPython's re (observed_re) on numbered back-references *)
+Theorem combine_unrestricted_refuted :
+  exists (matches : string -> string -> bool) o s, o <> Some [] /\
+    opt_match matches (combine_optional o) s <> any_of matches o s.
+Proof.
+  exists observed_matches, (Some ["(x)\1"; "(y)\1"]%string), "yy"%string.
+  split; [discriminate|]. vm_compute. discriminate.
+Qed.
+
+(* ... and on inline global flags, where the joined pattern is rejected outright *)
+Theorem combine_flags_refuted :
+  opt_match observed_matches (combine_optional (Some ["x"; "(?i)abc"]%string)) "ABC"
+  <> any_of observed_matches (Some ["x"; "(?i)abc"]%string) "ABC".
+Proof. vm_compute. discriminate. Qed.
